@@ -26,7 +26,7 @@ def main():
                 continue
             for h in head[1:]:
                 h = h.lstrip("# ").strip()
-                if h:
+                if h and not h.startswith("suite:") and not h.startswith("property"):
                     ideas.append(h)
         wt = "/tmp/seed%s-%s" % (rnd, pid)
         files = START.get(pid) or ", ".join(p["anchors"]["files"][:3])
